@@ -69,6 +69,17 @@ class DecomposerStub:
         V = tm.sym(f"V.{tag}", p, k, pr)
         for name, (l, r) in svdk_clauses(Xt.term, U, s, V, k).items():
             c.hyps.append((l, r, "SVD_k:" + name))
+        # full-rank clauses of SVD_k (proved for Decomposer.fit under C01): the factor whose size equals k is unitary
+        from ..sym.core import decide
+        full = False
+        if decide(k.z == p.z):
+            c.hyps.append((tm.mul(V, tm.H(V)), tm.I(p), "SVD_k: V V^H = I when k = n_features"))
+            full = True
+        if decide(k.z == n.z):
+            c.hyps.append((tm.mul(U, tm.H(U)), tm.I(n), "SVD_k: U U^H = I when k = n_samples"))
+            full = True
+        if full:
+            c.hyps.append((Xt.term, tm.mul(tm.mul(U, s), tm.H(V)), "SVD_k: X = U s V^H when all modes are kept", "lr"))
         lazy = X.lazy and not self.kw.get("compute", True)
         cm = ("range", "1", k.name)
         self.U_ = SymDA(U, (dims[0], "mode"), {dims[0]: n, "mode": k}, {dims[0]: Xt._cid.get(dims[0]), "mode": cm},
